@@ -218,7 +218,25 @@ func (p *Prog) StaticCallSites(fn *ssa.Function) []ssa.Instruction {
 func (p *Prog) FieldStores(fv *types.Var) []ssa.Value {
 	if p.fieldStores == nil {
 		p.fieldStores = map[*types.Var][]ssa.Value{}
+		// (with the generic bodies of the instantiations: sites are reported in them as well)
+		fns := append([]*ssa.Function{}, p.pandoraFuncs()...)
+		seenFn := map[*ssa.Function]bool{}
+		for _, g := range fns {
+			seenFn[g] = true
+		}
 		for _, g := range p.pandoraFuncs() {
+			if o := g.Origin(); o != nil && !seenFn[o] {
+				seenFn[o] = true
+				fns = append(fns, o)
+				for _, a := range o.AnonFuncs {
+					if !seenFn[a] {
+						seenFn[a] = true
+						fns = append(fns, a)
+					}
+				}
+			}
+		}
+		for _, g := range fns {
 			EachInstr(g, func(in ssa.Instruction) {
 				st, ok := in.(*ssa.Store)
 				if !ok {
